@@ -2850,3 +2850,93 @@ func c15r28(rc *core.RC) {
 		rc.Unknown("encoder/StructFieldCode.depth-stores", token.NoPos, "found %d assignments to StructFieldCode.depth, fewer than the 4 confirmed by hand", n)
 	}
 }
+
+// ---- C15.R29 the number a field has for the first-win bookkeeping belongs to the field, not to a spelling ----
+
+// Under DecodeFieldPriorityFirstWin the struct decoders remember which fields have had a value (seenFields, by
+// structFieldSet.fieldIdx) and step over later members for the same field. The numbers are given out in tryOptimize,
+// over the field map, which holds every field under its name and under the lower-case alias of the name. Numbered by
+// the lower-cased key, two fields whose names differ only in case ("A" and "a") get one number, and the second
+// field's value is skipped as if it were a repetition of the first. Obligation: every value assigned to
+// structFieldSet.fieldIdx in tryOptimize comes from a map keyed by the field set itself (*structFieldSet).
+func c15r29(rc *core.RC) {
+	p := rc.P
+	fd := p.Func("decoder", "structDecoder.tryOptimize")
+	key := "decoder.(*structDecoder).tryOptimize/fieldIdx-per-field"
+	if fd == nil || fd.Body == nil {
+		rc.Unknown(key, token.NoPos, "tryOptimize not found")
+		return
+	}
+	rc.Touch(p.FuncName(fd))
+	info := p.Info(fd)
+	n, good := 0, 0
+	var at ast.Node
+	ast.Inspect(fd.Body, func(m ast.Node) bool {
+		as, ok := m.(*ast.AssignStmt)
+		if !ok || len(as.Lhs) != 1 || len(as.Rhs) != 1 {
+			return true
+		}
+		sel, isSel := core.Unparen(as.Lhs[0]).(*ast.SelectorExpr)
+		if !isSel || sel.Sel.Name != "fieldIdx" {
+			return true
+		}
+		if f := core.FieldOf(info, sel); f == nil {
+			return true
+		}
+		n++
+		at = as
+		// the assigned value: a local whose definitions come from a map indexed by a *structFieldSet, or len of such a map
+		fromIdentityMap := false
+		if o := core.ObjOf(info, as.Rhs[0]); o != nil {
+			ast.Inspect(fd.Body, func(q ast.Node) bool {
+				a2, isAs := q.(*ast.AssignStmt)
+				if !isAs {
+					return true
+				}
+				for i, l := range a2.Lhs {
+					if core.ObjOf(info, l) != o {
+						continue
+					}
+					var rhs ast.Expr
+					if len(a2.Rhs) == len(a2.Lhs) {
+						rhs = a2.Rhs[i]
+					} else if len(a2.Rhs) == 1 {
+						rhs = a2.Rhs[0]
+					}
+					ast.Inspect(rhs, func(z ast.Node) bool {
+						var mapExpr ast.Expr
+						switch x := z.(type) {
+						case *ast.IndexExpr:
+							mapExpr = x.X
+						case *ast.CallExpr:
+							if core.IsBuiltin(info, x, "len") && len(x.Args) == 1 {
+								mapExpr = x.Args[0]
+							}
+						}
+						if mapExpr != nil {
+							if t := info.TypeOf(mapExpr); t != nil {
+								if mt, isMap := t.Underlying().(*types.Map); isMap && strings.HasSuffix(mt.Key().String(), "structFieldSet") {
+									fromIdentityMap = true
+								}
+							}
+						}
+						return true
+					})
+				}
+				return true
+			})
+		}
+		if fromIdentityMap {
+			good++
+		}
+		return true
+	})
+	switch {
+	case n == 0:
+		rc.Unknown(key, fd.Pos(), "no assignment to structFieldSet.fieldIdx found in tryOptimize")
+	case good == n:
+		rc.OK(key, at.Pos(), "the numbers come from a map keyed by the field set")
+	default:
+		rc.Bad(key, at.Pos(), "the number a field gets for the first-win bookkeeping is looked up by a spelling of its name: two fields whose names differ only in case share it, and under DecodeFieldPriorityFirstWin the value of the second is skipped as a repetition of the first ({\"A\":1,\"a\":2} into struct{ A int `json:\"A\"`; B int `json:\"a\"` } leaves B zero)")
+	}
+}
